@@ -23,13 +23,25 @@ CONSTANTS
     UncOffs,      \* decades below the value's decade at which the uncertainty sits
     UncPrecs,     \* requested digits of the uncertainty
     Units,        \* unit texts ("" = none)
+    Convs,        \* subset of ConvTable: conversions to a requested display unit
+    UncSrcs,      \* subset of {"arg", "attr"}: uncertainty passed as argument / carried by the number itself
     RomanMax      \* Roman numerals 1..RomanMax (0 = none)
 
-VARIABLES stage, mode, x, n, xe, p, unit, out, rn, rrem, rsyms
+VARIABLES stage, mode, x, n, xe, p, unit, out, rn, rrem, rsyms, conv, usrc
 
-vars == <<stage, mode, x, n, xe, p, unit, out, rn, rrem, rsyms>>
+vars == <<stage, mode, x, n, xe, p, unit, out, rn, rrem, rsyms, conv, usrc>>
 
 None == [none |-> TRUE]
+
+(* display in another unit: the number is given in unit `from` and its printing is requested in unit   *)
+(* `to`; the printed value and uncertainty denote the given ones times the exact factor 10^k.          *)
+(* (Only decimal factors are tabulated, so that the exact decimal arithmetic is an exponent shift.)    *)
+CV(f, t, k) == [from |-> f, to |-> t, k |-> k]
+NoConv == CV("", "", 0)
+ConvTable == { CV("km", "m", 3), CV("m", "km", -3), CV("m", "cm", 2), CV("cm", "m", -2), CV("mm", "m", -3),
+               CV("m3/mol/s", "1/M/s", 3), CV("1/M/s", "m3/mol/s", -3), CV("M", "mol/m3", 3),
+               CV("mol/m3", "M", -3), CV("kJ/mol", "J/mol", 3), CV("g", "kg", -3), CV("kg", "g", 3),
+               CV("ms", "s", -3) }
 
 ------------------------------------------------------------------------------
 (* observations *)
@@ -170,65 +182,76 @@ GreedyToken(r) == RomanTokens[CHOOSE i \in 1..Len(RomanTokens) :
                         /\ \A j \in 1..(i - 1) : RomanTokens[j].v > r]
 
 ------------------------------------------------------------------------------
+\* the value / uncertainty in the display unit
+Shown(v) == Dec(v.neg, v.digs, v.e + conv.k)
+
 Init ==
     /\ stage = "start" /\ mode = "none" /\ x = DZero /\ n = 0 /\ xe = DZero /\ p = 0
-    /\ unit = "" /\ out = None /\ rn = 0 /\ rrem = 0 /\ rsyms = <<>>
+    /\ unit = "" /\ out = None /\ rn = 0 /\ rrem = 0 /\ rsyms = <<>> /\ conv = NoConv /\ usrc = ""
 
 ChooseValue(v) ==
     /\ stage = "start" /\ IsNorm(v) /\ v.digs # <<>>
     /\ x' = v /\ stage' = "value"
-    /\ UNCHANGED <<mode, n, xe, p, unit, out, rn, rrem, rsyms>>
+    /\ UNCHANGED <<mode, n, xe, p, unit, out, rn, rrem, rsyms, conv, usrc>>
 
 WithUnit(u) ==
     /\ stage = "value" /\ unit = "" /\ u # ""
     /\ unit' = u
-    /\ UNCHANGED <<stage, mode, x, n, xe, p, out, rn, rrem, rsyms>>
+    /\ UNCHANGED <<stage, mode, x, n, xe, p, out, rn, rrem, rsyms, conv, usrc>>
+
+\* the number is to be shown in another unit of the same dimension
+ConvertTo(f, t) ==
+    /\ stage = "value" /\ conv = NoConv
+    /\ \E c \in ConvTable : c.from = f /\ c.to = t /\ conv' = c
+    /\ UNCHANGED <<stage, mode, x, n, xe, p, unit, out, rn, rrem, rsyms, usrc>>
 
 ChoosePrecision(k) ==
     /\ stage = "value" /\ k >= 1
     /\ n' = k /\ mode' = "number" /\ stage' = "prec"
-    /\ UNCHANGED <<x, xe, p, unit, out, rn, rrem, rsyms>>
+    /\ UNCHANGED <<x, xe, p, unit, out, rn, rrem, rsyms, conv, usrc>>
 
 Format ==
     /\ stage = "prec" /\ mode = "number"
-    /\ out' = Present(x, n) /\ stage' = "done"
-    /\ UNCHANGED <<mode, x, n, xe, p, unit, rn, rrem, rsyms>>
+    /\ out' = Present(Shown(x), n) /\ stage' = "done"
+    /\ UNCHANGED <<mode, x, n, xe, p, unit, rn, rrem, rsyms, conv, usrc>>
 
 \* uncertainty: positive, at most half the magnitude of the value
-ChooseUncert(u, k) ==
-    /\ stage = "value" /\ k >= 1 /\ IsNorm(u) /\ u.digs # <<>> /\ ~u.neg
+ChooseUncert(u, k, src) ==
+    /\ stage = "value" /\ k >= 1 /\ src \in {"arg", "attr"} /\ usrc' = src /\ IsNorm(u) /\ u.digs # <<>> /\ ~u.neg
     /\ WithinTol(u, DNeg(u), <<Dec(FALSE, x.digs, x.e)>>)           \* 2 u <= |x|
     /\ xe' = u /\ p' = k /\ mode' = "uncert" /\ stage' = "unc"
-    /\ UNCHANGED <<x, n, unit, out, rn, rrem, rsyms>>
+    /\ UNCHANGED <<x, n, unit, out, rn, rrem, rsyms, conv>>
 
 FormatUncert ==
     /\ stage = "unc" /\ mode = "uncert"
-    /\ out' = UncertLayouts(x, xe, p) /\ stage' = "done"
-    /\ UNCHANGED <<mode, x, n, xe, p, unit, rn, rrem, rsyms>>
+    /\ out' = UncertLayouts(Shown(x), Shown(xe), p) /\ stage' = "done"
+    /\ UNCHANGED <<mode, x, n, xe, p, unit, rn, rrem, rsyms, conv, usrc>>
 
 RomanChoose(k) ==
     /\ stage = "start" /\ k >= 1
     /\ rn' = k /\ rrem' = k /\ rsyms' = <<>> /\ mode' = "roman" /\ stage' = "roman"
-    /\ UNCHANGED <<x, n, xe, p, unit, out>>
+    /\ UNCHANGED <<x, n, xe, p, unit, out, conv, usrc>>
 
 RomanStep ==
     /\ stage = "roman" /\ rrem > 0
     /\ LET t == GreedyToken(rrem) IN rsyms' = rsyms \o t.s /\ rrem' = rrem - t.v
-    /\ UNCHANGED <<stage, mode, x, n, xe, p, unit, out, rn>>
+    /\ UNCHANGED <<stage, mode, x, n, xe, p, unit, out, rn, conv, usrc>>
 
 RomanFinish ==
     /\ stage = "roman" /\ rrem = 0
     /\ stage' = "done"
-    /\ UNCHANGED <<mode, x, n, xe, p, unit, out, rn, rrem, rsyms>>
+    /\ UNCHANGED <<mode, x, n, xe, p, unit, out, rn, rrem, rsyms, conv, usrc>>
 
 \* (the stage guard stands before the quantifier so that TLC does not enumerate the alphabet in every state)
 GenValue == stage = "start" /\ \E s \in Signs, d \in Sigs, e \in Exps : ChooseValue(Dec(s, d, e))
 GenUnit == stage = "value" /\ \E u \in Units : WithUnit(u)
 GenPrecision == stage = "value" /\ \E k \in Precs : ChoosePrecision(k)
-GenUncert == stage = "value" /\ \E d \in UncSigs, o \in UncOffs, k \in UncPrecs : ChooseUncert(Dec(FALSE, d, x.e - o), k)
+GenUncert == stage = "value" /\ \E d \in UncSigs, o \in UncOffs, k \in UncPrecs, src \in UncSrcs :
+                 ChooseUncert(Dec(FALSE, d, x.e - o), k, src)
+GenConvert == stage = "value" /\ \E c \in Convs : ConvertTo(c.from, c.to)
 GenRoman == stage = "start" /\ \E k \in 1..RomanMax : RomanChoose(k)
 
-Next == GenValue \/ GenUnit \/ GenPrecision \/ Format \/ GenUncert \/ FormatUncert
+Next == GenValue \/ GenUnit \/ GenConvert \/ GenPrecision \/ Format \/ GenUncert \/ FormatUncert
         \/ GenRoman \/ RomanStep \/ RomanFinish
 
 Spec == Init /\ [][Next]_vars
@@ -242,24 +265,24 @@ TypeOK == stage \in {"start", "value", "prec", "unc", "roman", "done"}
 \* rounding either stays in the decade or carries into the next one, where it is a power of ten
 RoundCarries ==
     (stage \in {"prec", "done"} /\ mode = "number") =>
-        LET r == RoundSig(x, n) IN
-        /\ r.e \in {x.e, x.e + 1}
-        /\ (r.e = x.e + 1 => r.digs = <<1>>)
+        LET r == RoundSig(Shown(x), n) IN
+        /\ r.e \in {Shown(x).e, Shown(x).e + 1}
+        /\ (r.e = Shown(x).e + 1 => r.digs = <<1>>)
         /\ Len(r.digs) <= n
-        /\ WithinHalfUlpExact(r, x, n)
-        /\ \A a \in RoundSigSet(x, n) : WithinHalfUlpExact(a, x, n)
+        /\ WithinHalfUlpExact(r, Shown(x), n)
+        /\ \A a \in RoundSigSet(Shown(x), n) : WithinHalfUlpExact(a, Shown(x), n)
 
 \* the machine's own presentation satisfies the property, and denotes exactly the rounded value
 ModelNumberDenotes ==
     (Done /\ mode = "number") =>
-        /\ NumberOK(out, x, n, FALSE)
-        /\ NumDenoted(out) = RoundSig(x, n)
+        /\ NumberOK(out, Shown(x), n, FALSE)
+        /\ NumDenoted(out) = RoundSig(Shown(x), n)
 OmittedOnlyIfOne ==
-    (Done /\ mode = "number") => (out.omitted <=> (out.hasexp /\ RoundSig(x, n).digs = <<1>> /\ ~x.neg))
+    (Done /\ mode = "number") => (out.omitted <=> (out.hasexp /\ RoundSig(Shown(x), n).digs = <<1>> /\ ~x.neg))
 
 ModelUncertDenotes ==
     (Done /\ mode = "uncert") =>
-        /\ UncertOK(out.chosen, x, xe, p, FALSE)
+        /\ UncertOK(out.chosen, Shown(x), Shown(xe), p, FALSE)
         /\ UNominal(out.plain) = UNominal(out.expo) /\ UUncert(out.plain) = UUncert(out.expo)
         /\ out.chosen.len = MinInt(out.plain.len, out.expo.len)
 
@@ -275,25 +298,27 @@ SetSeq(S) == LET RECURSIVE f(_)
              IN f(S)
 Class ==
     IF mode = "number"
-    THEN "num-" \o GStyle(RoundSig(x, n), n) \o (IF CarriesDecade(x, n) THEN "-carry" ELSE "")
-         \o (IF IsTie(x, n) THEN "-tie" ELSE "") \o (IF out.omitted THEN "-one" ELSE "")
+    THEN "num-" \o GStyle(RoundSig(Shown(x), n), n) \o (IF CarriesDecade(Shown(x), n) THEN "-carry" ELSE "")
+         \o (IF IsTie(Shown(x), n) THEN "-tie" ELSE "") \o (IF out.omitted THEN "-one" ELSE "")
          \o (IF x.neg THEN "-neg" ELSE "") \o (IF unit # "" THEN "-unit" ELSE "")
+         \o (IF conv # NoConv THEN "-conv" ELSE "")
     ELSE IF mode = "uncert"
     THEN "unc-" \o (IF out.chosen.hasexp THEN "exp" ELSE "plain")
-         \o (IF RoundAt(x, UExp(xe, p)).e > x.e THEN "-carry" ELSE "")
-         \o (IF RoundAt(xe, UExp(xe, p)).e > xe.e THEN "-ucarry" ELSE "")
-         \o (IF UExp(xe, p) > 0 THEN "-int" ELSE "") \o (IF x.neg THEN "-neg" ELSE "")
+         \o (IF RoundAt(Shown(x), UExp(Shown(xe), p)).e > Shown(x).e THEN "-carry" ELSE "")
+         \o (IF RoundAt(Shown(xe), UExp(Shown(xe), p)).e > Shown(xe).e THEN "-ucarry" ELSE "")
+         \o (IF UExp(Shown(xe), p) > 0 THEN "-int" ELSE "") \o (IF x.neg THEN "-neg" ELSE "")
+         \o (IF conv # NoConv THEN "-conv" ELSE "") \o "-" \o usrc
     ELSE "roman"
 CaseRec ==
     IF mode = "number"
-    THEN [in |-> [mode |-> mode, x |-> DecJ(x), n |-> n, unit |-> unit], cls |-> Class,
-          exp |-> [allowed |-> SetSeq({DecJ(r) : r \in RoundSigSet(x, n)}),
-                   omit_ok |-> (RoundsToOne(x, n) /\ ~x.neg), model |-> out]]
+    THEN [in |-> [mode |-> mode, x |-> DecJ(x), n |-> n, unit |-> unit, conv |-> conv], cls |-> Class,
+          exp |-> [allowed |-> SetSeq({DecJ(r) : r \in RoundSigSet(Shown(x), n)}),
+                   omit_ok |-> (RoundsToOne(Shown(x), n) /\ ~x.neg), model |-> out]]
     ELSE IF mode = "uncert"
-    THEN [in |-> [mode |-> mode, x |-> DecJ(x), xe |-> DecJ(xe), p |-> p, unit |-> unit], cls |-> Class,
-          exp |-> [ue |-> UExp(xe, p),
-                   nominal |-> SetSeq({DecJ(r) : r \in RoundAtSet(x, UExp(xe, p))}),
-                   uncert |-> SetSeq({DecJ(r) : r \in RoundAtSet(xe, UExp(xe, p))}),
+    THEN [in |-> [mode |-> mode, x |-> DecJ(x), xe |-> DecJ(xe), p |-> p, unit |-> unit, conv |-> conv, usrc |-> usrc], cls |-> Class,
+          exp |-> [ue |-> UExp(Shown(xe), p),
+                   nominal |-> SetSeq({DecJ(r) : r \in RoundAtSet(Shown(x), UExp(Shown(xe), p))}),
+                   uncert |-> SetSeq({DecJ(r) : r \in RoundAtSet(Shown(xe), UExp(Shown(xe), p))}),
                    model |-> out.chosen]]
     ELSE [in |-> [mode |-> mode, n |-> rn], cls |-> Class, exp |-> [syms |-> rsyms]]
 Emit == Done => PrintT(<<"CASE", ToJson(CaseRec)>>)
